@@ -86,6 +86,22 @@ def replay_segy(req, tmp):
             r.close()
         if got.shape != exp.shape:
             return dict(reproduced=True, detail='%s: volume read back has shape %s, source %s' % (what, got.shape, exp.shape), extra=dict(outcome='shape'))
+        # the one-sample read the solver's model points at (a different read path than the whole-volume read)
+        try:
+            r = R.SgzReader(sgz)
+            if kind == '2d' and 't' in m_:
+                one = quiet(r.read_subplane, m_['t'], m_['t'] + 1, m_['z'], m_['z'] + 1)
+                if not bits_equal(np.asarray(one).reshape(-1), exp[m_['t'], m_['z']].reshape(-1)):
+                    return dict(reproduced=True, detail='%s: read_subplane(%d,%d,%d,%d) differs from the ZFP image of the source' % (
+                        what, m_['t'], m_['t'] + 1, m_['z'], m_['z'] + 1), extra=dict(outcome='values'))
+            elif kind != '2d' and 'i' in m_ and all(m_[k] < n for k, n in zip('ixz', exp.shape)):
+                one = quiet(r.read_subvolume, m_['i'], m_['i'] + 1, m_['x'], m_['x'] + 1, m_['z'], m_['z'] + 1)
+                if not bits_equal(np.asarray(one).reshape(-1), exp[m_['i'], m_['x'], m_['z']].reshape(-1)):
+                    return dict(reproduced=True, detail='%s: read_subvolume of voxel (%d,%d,%d) differs from the ZFP image of the source' % (
+                        what, m_['i'], m_['x'], m_['z']), extra=dict(outcome='values'))
+            r.close()
+        except Exception as e:
+            return dict(reproduced=True, detail='%s: the one-sample read raised %s' % (what, type(e).__name__), extra=dict(outcome='read-raised'))
         if not bits_equal(got, exp):
             g, e = np.ascontiguousarray(got, dtype=np.float32).view(np.uint32), np.ascontiguousarray(exp, dtype=np.float32).view(np.uint32)
             return dict(reproduced=True, detail='%s: volume read back differs bitwise from the ZFP image of the edge-extended source at %d of %d samples (first %s)' % (
